@@ -345,6 +345,17 @@ def _get_or_make_region(
 
     position = parse_vtt_pct(value[0])
     if position is not None:
+      # WebVTT 7.2: the size is limited by the room between the position and the edges of the root container
+      if line_align == "center":
+        max_size = 2 * min(position, 100 - position)
+      elif line_align == "line-left":
+        max_size = 100 - position
+      else:
+        max_size = position
+      if writing_mode in (styles.WritingModeType.rltb, styles.WritingModeType.lrtb):
+        extent_width = min(extent_width, max_size)
+      else:
+        extent_height = min(extent_height, max_size)
       if line_align == "center":
         if writing_mode in (styles.WritingModeType.rltb, styles.WritingModeType.lrtb):
           origin_x = position - extent_width / 2
@@ -366,6 +377,10 @@ def _get_or_make_region(
     else:
       LOGGER.warning("Bad position setting value: %s", cue_settings.get("position"))
 
+
+  # without a (valid) position the box starts at its default origin: the same limit applies
+  extent_width = min(extent_width, 100 - origin_x)
+  extent_height = min(extent_height, 100 - origin_y)
 
   extent = styles.ExtentType(
     height=styles.LengthType(extent_height),
